@@ -13,6 +13,10 @@ CXXFLAGS = ['-std=c++17', '-O1', '-g', '-fsanitize=address,undefined', '-fsaniti
             '-fno-sanitize-recover=all', '-fno-omit-frame-pointer', '-w', '-fno-access-control']
 
 
+# class templates are replayed at the instantiation the library exports
+CPP_CLASS = {'PolygonAreaT': 'PolygonAreaT<Geodesic>'}
+
+
 def obligation_name(r, f):
     return '%s/%s' % (r['job'], f.get('clause') or f['id'])
 
@@ -233,7 +237,7 @@ def gen_driver(proj, r, f, fi, contract, strcap):
         ens2.append((cid, e))
     for name, inner in olds:
         L.append('  auto %s = (%s);' % (name, inner))
-    call = '%s::%s(%s)' % (cls, fi.qualname.split('::')[1], ', '.join(call_args))
+    call = '%s::%s(%s)' % (CPP_CLASS.get(cls, cls), fi.qualname.split('::')[1], ', '.join(call_args))
     if fi.ret_ctype != 'void':
         L.append('  %s ret_ = %s;' % (fi.ret_ctype.replace('_Bool', 'bool'), '0'))
         call = 'ret_ = ' + call
